@@ -50,6 +50,12 @@ class C17(core.Check):
                ("enc", b"abcdef", (2, 2), (), ((b"T", b"v"),), (), (1, 2, 0, 1)),      # "02" "002" "2" then last chunk "00" + trailer
                ("enc", b"", (), (b";x",), ((b"T", b"v"), (b"U", b"w")), (), (3,)), ("enc", b"q", (), (), (), (), (0, 7)),
                ("pack", (b"hello", b"\r\n", b"x" * 26), (4, 9)), ("pack", (), ())]
+        import random
+        r0 = random.Random(3)
+        wire = self._chunked_response(r0, b"abcdefghi", (3, 4, 2), (), (), ())
+        for cutset in ((50,), (52,), (57,), (61,), (20, 52), tuple(range(1, len(wire)))):
+            cs.append(("resp", False, wire, cutset, True, "cf"))
+            cs.append(("resp", False, wire, cutset, True, None))
         cs += self._boundary_cases(None, big=False)
         return cs
 
@@ -73,11 +79,25 @@ class C17(core.Check):
                     cs.append((kind, ps, cuts))
         return cs
 
+    _resp_bodies = {}
+
+    def _chunked_response(self, rng, body, sizes, exts, trailers, pads):
+        w, _ = hp.enc_wire(body, sizes, exts, trailers, pads)
+        wire = b"HTTP/1.1 200 OK\r\nTransfer-Encoding: chunked\r\n\r\n" + w
+        self._resp_bodies[wire] = body
+        return wire
+
     def generate(self, rng, n, tier):
         from hio.core.http import httping
         for _ in range(n):
             k = rng.random()
-            if k < 0.45:
+            if k < 0.08:     # the same coding inside a response, both orders of the close signal and the last parse
+                body = hp.rand_body(rng, rng.choice([1, 2, 15, 17, rng.randrange(1, 80)]))
+                sizes = tuple(rng.choice([1, 2, 3, 15, 16, 17, 40]) for _ in range(rng.randrange(0, 6)))
+                wire = self._chunked_response(rng, body, sizes, (), (), ())
+                cuts = hp.cuts_for(rng, wire, rng.choice(["two", "uniform", "term", "ones", "tail"]))
+                yield ("resp", False, wire, cuts, True, "cf" if rng.random() < 0.7 else None)
+            elif k < 0.45:
                 body = hp.rand_body(rng, rng.choice([0, 1, 2, 15, 16, 17, 255, 256, rng.randrange(0, 80)]))
                 sizes = tuple(rng.choice([1, 2, 3, 15, 16, 17, 40, 255, 256]) for _ in range(rng.randrange(0, 6)))
                 exts = tuple(rng.choice([b"", b"", b";a", b";a=b", b" ; n = v ", b";a=1;b=2;a=3", b";q=\"s t\"", b";", b";;x"]) for _ in range(rng.randrange(0, 5)))
@@ -133,6 +153,29 @@ class C17(core.Check):
         bad = []
         if case[0] == "wsgi":
             return self._oracle_wsgi(case, obs)
+        if case[0] == "resp":
+            # a complete chunked response read in pieces, the close signalled before or after the parse of the last read:
+            # the decoded body is the whole body either way, nothing left over
+            cut, whole = obs
+            body = self._resp_bodies.get(case[2])
+            if body is None:        # not one of the complete encodings (a shrunk case): only the order of the close matters
+                a, b = list(cut[0]), list(whole[0])
+                if a and b and a[-1][0] == "ok" and a[-1][9] and b[-1] == ("err", "PrematureClosure") and a[:-1] == b[:-1]:
+                    return bad
+                if (cut[0], cut[1][0]) != (whole[0], whole[1][0]):
+                    bad.append("close-order-changes-result")
+                return bad
+            for part in (cut, whole):
+                msgs, tail, _ = part
+                if len(msgs) != 1 or msgs[0][0] != "ok" or (body is not None and msgs[0][5] != body):
+                    bad.append("decoded-body-differs")
+                    break
+                if tail[0] not in ("more", "stop") or tail[1] != b"":
+                    bad.append("leftover-after-last-chunk")
+                    break
+            if cut != whole:
+                bad.append("close-order-changes-result")
+            return bad
         cut, whole = obs[-2], obs[-1]
         if cut != whole:
             bad.append("fragmented-differs-from-whole")
@@ -205,12 +248,16 @@ class C17(core.Check):
 
     @hp.safe(True)
     def nontrivial(self, case, obs):
+        if case[0] == "resp":
+            return len(obs[0][0]) >= 1
         if case[0] == "wsgi":
             return len(obs[0][0]) >= 1
         return len(obs[-2][0]) >= 1 or obs[-2][1][0] == "err"
 
     @hp.safe(list)
     def features(self, case, obs):
+        if case[0] == "resp":
+            return ["resp", "resp:close-first" if case[5] == "cf" else "resp:close-after"]
         if case[0] == "wsgi":
             return ["wsgi", f"pieces:{min(len(case[1]), 4)}"] + [f"piece-size:{self._bucket(len(p))}" for p in case[1]]
         if case[0] == "pack":
